@@ -65,6 +65,8 @@ def run(ctx):
         mech.drain_complete(ctx, "encoding", crate, crs, tag)
         ctx.guard("watch-list" + tag, wl.run, ctx, crate, crs, tag)
         ctx.guard("restart" + tag, restart_level, ctx, crate, crs, tag)
+        import c09
+        ctx.guard("new-solvables" + tag, c09.new_solvables, ctx, crate, crs, tag)  # every newly selected solvable gets encoded
         # the candidate lists the clauses are built from are the provider's (filter flag / map agreement, memoised under the right key)
         mech.memo_check(ctx, "candidate-lists", crate, crs, tag)
         mech.filter_siblings(ctx, crate, crs, tag, rule="candidate-lists")
